@@ -16,7 +16,7 @@ META = {
                      "UperWriter/UperReader kind pair calls the same primitives with the same constraint descriptors, "
                      "scope save/restore on all paths, one shared field order in the generator, length-determinant "
                      "fragment discipline. Does not decide decode(encode(v)) == v.", ref="5/C01"),
-    "C02": dict(tech="static analysis: frozen X.691 threshold/constant table matched against normalised MIR comparison and call facts, near-miss detection; sign-sensitivity of the 11.8 octet count (value origins)",
+    "C02": dict(tech="static analysis: frozen X.691 threshold/constant table matched against normalised MIR comparison and call facts, near-miss detection; sign-sensitivity of the 11.8 octet count (value origins); selector-bit patterns of the alternative encoding forms (dominating write_bit / read_bit branches) against an X.691 table",
                 text="Decides that each X.691 threshold and constant the conformance profile needs (127/128, 16383/16384, 64K, "
                      "64/63, n-1, character widths, fragment unit and clamp) is present exactly in the writer and reader "
                      "function it belongs to, and that no off-by-one neighbour of such a value occurs. Does not decide "
@@ -30,7 +30,7 @@ META = {
                      "unwrap/expect/index/slice/copy_from_slice calls), allocation or loop bound in the decoders without a "
                      "dominating test, and that length-scoped readers test the visible end before advancing. "
                      "Over-approximates taint; does not decide stack depth or time.", ref="3/T1, 5/C04"),
-    "C05": dict(tech="static analysis: dataflow facts on the extension-addition reader/writer (MIR value origins)",
+    "C05": dict(tech="static analysis: dataflow facts on the extension-addition reader/writer (MIR value origins), constant-offset mirror of the transmitted addition count",
                 text="Decides the dataflow facts cross-version decoding needs: the transmitted addition count bounds the "
                      "presence range and is retained, open-type skip uses the position captured before the content, both "
                      "optional wrappers wrap additions as open types. Not the decoded values for schema pairs.", ref="5/C05"),
@@ -50,7 +50,7 @@ META = {
     "C09": dict(tech="static analysis: keyword table inclusion (syn const arrays), who-may-print rule, sibling agreement of the two type printers (MIR match arms)",
                 text="Decides that the generator's keyword escape table covers every Rust keyword that can be an ASN.1 identifier "
                      "and that field names are printed through the escaping helper.", ref="5/C09"),
-    "C10": dict(tech="static analysis: sibling boundary/skeleton agreement of PackedWrite/PackedRead pairs, length-determinant discipline, parameter-taint to panic sinks",
+    "C10": dict(tech="static analysis: sibling boundary/skeleton agreement of PackedWrite/PackedRead pairs, length-determinant discipline, parameter-taint to panic sinks, selector-bit agreement of writer and reader paths",
                 text="Decides writer/reader agreement on every threshold and constraint argument of the 13 primitive pairs, the "
                      "fragment protocol (returned fragment size used / read size tested against 16K) and error-not-panic for "
                      "inadmissible arguments. Not the numeric bit pattern.", ref="5/C10"),
